@@ -33,7 +33,7 @@ namespace bloc
 
 Value& MemberPUTExpression::value(Context& ctx) const
 {
-  Value& val = _exp->value(ctx);
+  Value& val = receiver(ctx);
   Value& a0 = _args[0]->value(ctx);
   if (val.isNull() || a0.isNull())
     throw RuntimeError(EXC_RT_INDEX_RANGE_S, a0.toString().c_str());
